@@ -443,6 +443,8 @@ pub struct ExpectedTx {
     pub redeemers: BTreeMap<(u64, u64), PData>,
     pub redeemer_conflict: bool,
     pub withdrawals: BTreeMap<Vec<u8>, BigInt>,
+    /// encoded certificates the template denotes (vote delegation), as a set
+    pub certificates: BTreeSet<Vec<u8>>,
     pub donation: Option<BigInt>,
     /// set when an integer intermediate left i128 (the implementation's host integer)
     pub wide: bool,
@@ -727,6 +729,26 @@ pub fn denote(env: &Env) -> Result<ExpectedTx, EvalErr> {
                 if let Some(r) = redeemer {
                     reward_redeemers.push((acct, to_pdata(&ev.eval(r, Ctx::Plain)?)?));
                 }
+            }
+            GDirective::VoteDelegation { drep, stake } => {
+                let a = as_addr(ev.eval(stake, Ctx::Plain)?)?;
+                let (cred_kind, cred) = match (a.first().map(|h| h >> 4), a.len()) {
+                    (Some(0) | Some(1), 57) => (0u8, a[29..57].to_vec()),
+                    (Some(2) | Some(3), 57) => (1u8, a[29..57].to_vec()),
+                    (Some(14), 29) => (0u8, a[1..29].to_vec()),
+                    (Some(15), 29) => (1u8, a[1..29].to_vec()),
+                    _ => return unsupported("vote delegation from an address without stake part"),
+                };
+                let drep = match ev.eval(drep, Ctx::Plain)? {
+                    Val::Bytes(b) if b.len() == 28 => b,
+                    x => return unsupported(format!("drep {:?}", tag(&x))),
+                };
+                // vote_deleg_cert = (9, stake_credential, drep) ; drep = [0, addr_keyhash]
+                let mut c = vec![0x83, 0x09, 0x82, cred_kind, 0x58, 0x1c];
+                c.extend_from_slice(&cred);
+                c.extend_from_slice(&[0x82, 0x00, 0x58, 0x1c]);
+                c.extend_from_slice(&drep);
+                x.certificates.insert(c);
             }
             GDirective::TreasuryDonation { coin } => {
                 let q = as_int(ev.eval(coin, Ctx::Plain)?)?;
